@@ -90,7 +90,29 @@ def main():
             lines = [l for l in r.stdout.splitlines()
                      if l.startswith(('VIOLATION', 'INCONCLUSIVE', 'HELD'))
                      or l.startswith('  monitor=')]
+            rp = None
+            for l in r.stdout.splitlines():
+                if l.startswith('VIOLATION') and 'replay=' in l:
+                    rp = l.split('replay=', 1)[1].strip()
+                    break
+            replay = None
+            if rp and os.path.exists(rp) and rp.endswith('.json') and \
+                    '/replays/' in rp:
+                r1 = subprocess.run([os.path.join(HERE, 'check'), p,
+                                     '--replay', rp], cwd=HERE,
+                                    env=dict(os.environ, VMON_REPO=B,
+                                             VMON_OUT=out),
+                                    capture_output=True, text=True)
+                r2 = subprocess.run([os.path.join(HERE, 'check'), p,
+                                     '--replay', rp], cwd=HERE,
+                                    env=dict(os.environ, VMON_REPO=A,
+                                             VMON_OUT=out),
+                                    capture_output=True, text=True)
+                replay = {'patched_exit': r1.returncode,
+                          'clean_exit': r2.returncode,
+                          'ok': r1.returncode == 1 and r2.returncode == 0}
             res['checks'][p] = {
+                'replay': replay,
                 'exit': r.returncode,
                 'verdict': 'CAUGHT' if r.returncode == 1 else
                 ('INCONCLUSIVE' if r.returncode == 2 else 'MISSED'),
